@@ -23,8 +23,8 @@ def c05_cross_engine(tier, seed, profiles=("core", "actions", "history", "done",
             if s1 != "ok" or s2 != "ok":
                 # a watchdog cut on a loaded machine is not a verdict: run both once more, alone, with a generous watchdog
                 if "hang" in (s1, s2):
-                    s1, o1 = core._impl_worker(("sync", c, 40))
-                    s2, o2 = core._impl_worker(("async", c, 40))
+                    s1, o1 = core.impl_isolated(("sync", c, 40))
+                    s2, o2 = core.impl_isolated(("async", c, 40))
                 if s1 != "ok" or s2 != "ok":
                     if s1 != s2:
                         fails.append({"kind": "engines-disagree", "case": c, "detail": f"sync run: {s1}, async run: {s2}"})
@@ -555,7 +555,7 @@ def c13_delayed_self_sends(tier, seed, n=160):
         for c, (st, obs) in zip(cases, rs):
             evals += 1
             if st == "hang":
-                st2, obs2 = core._impl_worker((flavor, c, 40))
+                st2, obs2 = core.impl_isolated((flavor, c, 40))
                 if st2 == "hang":
                     fails.append({"kind": "hang", "flavor": flavor, "case": c, "detail": "the engine did not come back (watchdog)"})
                     continue
